@@ -74,8 +74,8 @@ def main():
                           "logging, extracted/inlined locals and helpers are normalised away (DESIGN §10). Verdicts are three-valued "
                           "(DESIGN §11): rules that compare the shape of statements abstain (exit 2, undecided) on functions whose "
                           "statement structure no longer matches the reference tree, and obligations that meet a form the engines "
-                          "cannot evaluate are undecided. Measured on 57 behaviour-preserving refactors written by independent "
-                          "sub-agents (DESIGN §6, §13): none draws a false VIOLATION any more, 17 leave at least one check undecided "
+                          "cannot evaluate are undecided. Measured on 69 behaviour-preserving refactors written by independent "
+                          "sub-agents (DESIGN §6, §13): none draws a false VIOLATION any more, 24 leave at least one check undecided "
                           "(exit 2); every new batch first found forms that raised alarms and had to be answered by a canonical form "
                           "or an evaluator — the main weakness of this rule base.",
             "technique": "static analysis: " + tech + "; generic lints over the anchored functions (loop-carried "
